@@ -45,7 +45,7 @@ type vc29Req struct {
 	TS    int    // index into vc29TSPool
 	Val   int    // index into vc29IntPool
 	Delay int
-	Burst bool // part of the opening burst: all clients issue it at the same moment (barrier)
+	Burst bool   // part of the opening burst: all clients issue it at the same moment (barrier)
 	KIdx  int    // setKeyed: which of the workload's fresh keyed indexes
 	CKey  string // setKeyed: column key (unique per client and step)
 	RKey  string // setKeyed: row key (unique per client and step)
@@ -742,13 +742,7 @@ func TestVerifC29_API(t *testing.T) {
 		done := make(chan struct{})
 		go func() { wg.Wait(); close(done) }()
 		close(start)
-		select {
-		case <-done:
-		case <-time.After(300 * time.Second):
-			buf := make([]byte, 1<<21)
-			buf = buf[:runtime.Stack(buf, true)]
-			vc29Die("clients did not finish within 300s (deadlock?)\n%s", buf)
-		}
+		vc29Await(done, &clock, 300*time.Second, "TestVerifC29_API", key.String())
 		for c, err := range errs {
 			if err != nil {
 				t.Fatalf("C29 violated: client %d: a valid request failed: %v (GOMAXPROCS=%d; requests marked burst are issued by all clients at the same moment)\nplan of the client: %v", c, err, procs, plans[c])
